@@ -4,6 +4,7 @@
 mod case;
 mod common;
 mod o1;
+#[cfg(feature = "deep")]
 mod o2;
 mod o3;
 mod printer;
@@ -112,7 +113,10 @@ fn obs_line(id: &str, point: Point, obs: Sexp) -> String {
 fn observe(case: &Case, point: Point, case_dir: &Path) -> Sexp {
     match point {
         Point::O1 => common::guarded(|| o1::observe(case)),
+        #[cfg(feature = "deep")]
         Point::O2 => o2::observe(case),
+        #[cfg(not(feature = "deep"))]
+        Point::O2 => sexp::tagged("unavailable", []),
         Point::O3 => o3::observe(case, case_dir),
     }
 }
